@@ -213,7 +213,7 @@ class PyHarness(Harness):
 
     def inputs(self, mk):
         if core.ENG is not None:
-            core.ENG.uf_prune = True     # branch conditions of the two executions agree by congruence of * and //
+            core.ENG.staged_check = True     # the second execution's branch conditions are consequences of the first's: unsat-heavy feasibility queries
         inp = {}
         for p in self.argnames:
             lo, hi = self.small if p in self.tainted else (pyoracle.MIN64, pyoracle.MAX64)
